@@ -1,9 +1,820 @@
-//! C16 — not implemented yet (stub).
-use crate::engine::Opts;
-pub fn main(_opts: &Opts) -> i32 {
-    eprintln!("C16: check not implemented");
-    2
+//! C16 — stack use does not grow with the amount of data processed.
+//!
+//! Every scenario runs in a child process (`vcheck --worker C16 <scenario> <N>`), entirely
+//! (data construction included) on a `std::thread` with a 2 MiB stack, once with the
+//! unoptimised (`dev`) and once with the `release` build of the harness. The oracle is
+//! the child's exit status: 0 = the operation completed or returned an error value;
+//! death by signal (SIGSEGV / SIGABRT of a stack overflow) = violation; 3 = a panic;
+//! watchdog timeout = inconclusive.
+use crate::engine::*;
+use crate::model::*;
+use crate::pat::{GPat, QPat, TPat};
+use proptest::prelude::*;
+use serde::{Deserialize, Serialize};
+use serde_json::{json, Value};
+use sophia_api::dataset::{Dataset, MutableDataset};
+use sophia_api::graph::{Graph, MutableGraph};
+use sophia_api::parser::{QuadParser, TripleParser};
+use sophia_api::serializer::{QuadSerializer, Stringifier, TripleSerializer};
+use sophia_api::source::{QuadSource, TripleSource};
+use sophia_api::sparql::SparqlDataset;
+use sophia_api::term::matcher::Any;
+use sophia_inmem::dataset::{FastDataset, LightDataset};
+use sophia_inmem::graph::{FastGraph, LightGraph};
+use std::io::Read;
+use std::process::{Command, Stdio};
+use std::sync::atomic::{AtomicUsize, Ordering};
+use std::sync::Mutex;
+use std::time::{Duration, Instant};
+
+const STACK: usize = 2 << 20;
+
+#[derive(Clone, Debug, Serialize, Deserialize)]
+pub struct Case {
+    pub scenario: String,
+    pub n: u64,
+    /// "dev" or "release"
+    pub profile: String,
 }
-pub fn worker(_args: &[String]) -> i32 {
-    2
+
+// ------------------------------------------------------------------ scenarios
+
+#[derive(Clone, Debug)]
+struct Scn {
+    name: String,
+    /// part of the quick tier
+    quick: bool,
+    /// upper bound on N (quadratic algorithms: larger sizes only time out)
+    cap: u64,
+    /// slow scenario (scheduled first)
+    heavy: bool,
+}
+
+const POS: [char; 4] = ['g', 's', 'p', 'o'];
+
+/// Matching-iterator scenarios: `<store>:<shape>:rej-<pos>:vary-<pos>` where shape has
+/// one letter per position of g,s,p,o: upper case = bound to a constant, '-' = unbound;
+/// for g: 'G' = a named graph, 'D' = the default graph. Graph stores have no g position.
+fn iterator_scenarios() -> Vec<Scn> {
+    let mut v = vec![];
+    for store in ["ld", "fd", "lg", "fg"] {
+        let is_ds = store.ends_with('d');
+        let first = if is_ds { 0 } else { 1 };
+        let npos = 4 - first;
+        for mask in 0..(1u32 << npos) {
+            let bound: Vec<bool> = (0..4).map(|i| i >= first && (mask >> (i - first)) & 1 == 1).collect();
+            let gvars: &[char] = if is_ds && bound[0] { &['G', 'D'] } else { &['-'] };
+            for gv in gvars {
+                let shape: String = (0..4)
+                    .map(|i| {
+                        if i == 0 {
+                            if is_ds { *gv } else { '.' }
+                        } else if bound[i] {
+                            POS[i].to_ascii_uppercase()
+                        } else {
+                            '-'
+                        }
+                    })
+                    .collect();
+                for rej in first..4 {
+                    if bound[rej] {
+                        continue;
+                    }
+                    for vary in first..4 {
+                        if bound[vary] {
+                            continue;
+                        }
+                        // quick tier: the light stores (one index order each) with every
+                        // rejecting position, varying the rejected position itself, named
+                        // graph constant only; a handful of fast-store index orders
+                        let light_quick = (store == "ld" || store == "lg") && vary == rej && *gv != 'D' && {
+                            // shapes that select Gspo / Bcd / Cd (resp. Spo / Bc) iterators
+                            let b = &bound;
+                            if is_ds {
+                                (!b[0]) && !b[1] && !b[2] && !b[3] || (b[0] && !b[1] && !b[2] && !b[3]) || (b[0] && b[1] && !b[2] && !b[3])
+                            } else {
+                                (!b[1] && !b[2] && !b[3]) || (b[1] && !b[2] && !b[3])
+                            }
+                        };
+                        let fast_quick = (store == "fd" || store == "fg")
+                            && vary == rej
+                            && *gv != 'D'
+                            && matches!(
+                                shape.as_str(),
+                                "---O" | "-S--" | "G-P-" | "G--O" | "--PO" | "-S-O" | ".--O" | ".-P-" | ".S--" | ".---"
+                            )
+                            && rej == (first..4).rev().find(|i| !bound[*i]).unwrap();
+                        v.push(Scn {
+                            name: format!("{store}:{shape}:rej-{}:vary-{}", POS[rej], POS[vary]),
+                            quick: light_quick || fast_quick,
+                            cap: u64::MAX,
+                            heavy: false,
+                        });
+                    }
+                }
+            }
+        }
+    }
+    v
+}
+
+fn scenarios() -> Vec<Scn> {
+    let mut v = iterator_scenarios();
+    let mut add = |name: &str, quick: bool, cap: u64| {
+        let heavy = name.starts_with("sparql:") || name.contains("jsonld") || name.starts_with("mutate:");
+        v.push(Scn { name: name.into(), quick, cap, heavy })
+    };
+    // escaped characters in one literal
+    add("escape:nt", true, u64::MAX);
+    add("escape:nq", true, u64::MAX);
+    add("escape:turtle", true, u64::MAX);
+    add("escape:turtle-pretty", true, u64::MAX);
+    add("escape:trig-pretty", true, u64::MAX);
+    add("escape:rdfxml", false, u64::MAX);
+    add("escape:jsonld", false, u64::MAX);
+    // named graphs enumerated by GRAPH ?g
+    add("sparql:graph-var", true, u64::MAX);
+    add("sparql:graph-var-light", false, u64::MAX);
+    // BGP solutions
+    add("sparql:bgp-solutions", true, u64::MAX);
+    add("sparql:bgp-join", true, u64::MAX);
+    add("sparql:bgp-rejected-rows", true, u64::MAX);
+    // items of one RDF list
+    add("list:jsonld-serialize", true, u64::MAX);
+    add("list:jsonld-parse", true, u64::MAX);
+    add("list:turtle-pretty", true, 5_000);
+    add("list:turtle-parse", true, u64::MAX);
+    add("list:resource-items", false, u64::MAX);
+    // statements in one document
+    for syn in ["nt", "nq", "turtle", "trig", "rdfxml", "jsonld"] {
+        add(&format!("parse:{syn}"), true, u64::MAX);
+        add(&format!("serialize:{syn}"), true, u64::MAX);
+    }
+    // the pretty printer is quadratic in the number of statements: bounded by time
+    add("serialize:turtle-pretty", true, 10_000);
+    add("serialize:trig-pretty", true, 10_000);
+    // mutation
+    add("mutate:fd-remove-matching", true, u64::MAX);
+    add("mutate:ld-retain-matching", true, u64::MAX);
+    add("mutate:fg-remove-matching", false, u64::MAX);
+    v
+}
+
+// ------------------------------------------------------------------ worker side
+
+fn iri(s: String) -> MT {
+    MT::Iri(s)
+}
+
+fn run_iterator_scenario(name: &str, n: u64) -> Result<String, String> {
+    let parts: Vec<&str> = name.split(':').collect();
+    if parts.len() != 4 {
+        return Err(format!("bad scenario name {name}"));
+    }
+    let store = parts[0];
+    let shape: Vec<char> = parts[1].chars().collect();
+    let rej = POS.iter().position(|c| Some(*c) == parts[2].strip_prefix("rej-").and_then(|s| s.chars().next())).ok_or("bad rej")?;
+    let vary = POS.iter().position(|c| Some(*c) == parts[3].strip_prefix("vary-").and_then(|s| s.chars().next())).ok_or("bad vary")?;
+    // Terms are built once (IRI validation is expensive in unoptimised builds): constants are
+    // IRIs, the varying position holds plain literals `"<pos><i>"` (the stores accept any term
+    // anywhere), and the rejecting matcher is TermKind::BlankNode: not a constant, matches none.
+    use sophia_api::term::{IriRef, SimpleTerm};
+    use sophia_api::MownStr;
+    let konst = |pos: usize| -> MT { iri(format!("http://x/const-{}", POS[pos])) };
+    let consts: Vec<crate::stores::ST> = (0..4).map(|pos| konst(pos).to_simple()).collect();
+    let xsd_string: IriRef<MownStr<'static>> = IriRef::new_unchecked(MownStr::from_ref(XSD_STRING));
+    let term = |pos: usize, i: u64| -> crate::stores::ST {
+        if pos == vary {
+            SimpleTerm::LiteralDatatype(MownStr::from(format!("{}{i}", POS[pos])), xsd_string.clone())
+        } else {
+            consts[pos].clone()
+        }
+    };
+    let named = !matches!(shape[0], 'D' | '.');
+    let tp = |pos: usize| -> TPat {
+        if pos == rej {
+            TPat::Kind(0) // TermKind::BlankNode
+        } else if shape[pos] != '-' {
+            TPat::One(konst(pos))
+        } else {
+            TPat::Any
+        }
+    };
+    let gp = match shape[0] {
+        'G' => GPat::One(Some(konst(0))),
+        'D' => GPat::One(None),
+        _ if rej == 0 => GPat::Kind(Some(0)),
+        _ => GPat::Any,
+    };
+    let pat = QPat { s: tp(1), p: tp(2), o: tp(3), g: gp };
+    macro_rules! ds {
+        ($ty:ty) => {{
+            let mut d = <$ty>::new();
+            for i in 0..n {
+                let g = if named { Some(term(0, i)) } else { None };
+                d.insert(term(1, i), term(2, i), term(3, i), g).map_err(|e| e.to_string())?;
+            }
+            let c = d.quads_matching(pat.s.real(), pat.p.real(), pat.o.real(), pat.g.real()).count();
+            let total = d.quads().count();
+            Ok(format!("rows={total} matched={c}"))
+        }};
+    }
+    macro_rules! gr {
+        ($ty:ty) => {{
+            let mut g = <$ty>::new();
+            for i in 0..n {
+                g.insert(term(1, i), term(2, i), term(3, i)).map_err(|e| e.to_string())?;
+            }
+            let c = g.triples_matching(pat.s.real(), pat.p.real(), pat.o.real()).count();
+            let total = g.triples().count();
+            Ok(format!("rows={total} matched={c}"))
+        }};
+    }
+    match store {
+        "ld" => ds!(LightDataset),
+        "fd" => ds!(FastDataset),
+        "lg" => gr!(LightGraph),
+        "fg" => gr!(FastGraph),
+        _ => Err(format!("unknown store {store}")),
+    }
+}
+
+fn nasty_literal(n: u64) -> String {
+    // every character needs an escape in N-Triples
+    let mut s = String::with_capacity(n as usize);
+    for i in 0..n {
+        s.push(match i % 4 {
+            0 => '"',
+            1 => '\\',
+            2 => '\n',
+            _ => '\r',
+        });
+    }
+    s
+}
+
+fn list_quads(n: u64) -> Vec<MQ> {
+    let first = rdf("first");
+    let rest = rdf("rest");
+    let mut v = vec![MQ::new(iri("http://x/s".into()), iri("http://x/p".into()), if n == 0 { MT::Iri(rdf("nil")) } else { MT::bn("l0") }, None)];
+    for i in 0..n {
+        let node = MT::bn(format!("l{i}"));
+        v.push(MQ::new(node.clone(), MT::Iri(first.clone()), MT::lit(i.to_string(), xsd("integer")), None));
+        let next = if i + 1 == n { MT::Iri(rdf("nil")) } else { MT::bn(format!("l{}", i + 1)) };
+        v.push(MQ::new(node, MT::Iri(rest.clone()), next, None));
+    }
+    v
+}
+
+fn statements(n: u64, quads: bool) -> Vec<MQ> {
+    (0..n)
+        .map(|i| {
+            MQ::new(
+                iri(format!("http://x/s{}", i / 3)),
+                iri(format!("http://x/p{}", i % 7)),
+                if i % 2 == 0 { iri(format!("http://x/o{i}")) } else { MT::string(format!("value {i}")) },
+                if quads && i % 5 != 0 { Some(iri(format!("http://x/g{}", i % 11))) } else { None },
+            )
+        })
+        .collect()
+}
+
+fn nt_line(q: &MQ) -> String {
+    fn t(t: &MT) -> String {
+        match t {
+            MT::Iri(i) => format!("<{i}>"),
+            MT::Bnode(b) => format!("_:{b}"),
+            MT::Lit(l, d) if d == XSD_STRING => format!("\"{l}\""),
+            MT::Lit(l, d) => format!("\"{l}\"^^<{d}>"),
+            MT::Lang(l, tag) => format!("\"{l}\"@{tag}"),
+            o => o.show(),
+        }
+    }
+    match &q.g {
+        None => format!("{} {} {} .\n", t(&q.s), t(&q.p), t(&q.o)),
+        Some(g) => format!("{} {} {} {} .\n", t(&q.s), t(&q.p), t(&q.o), t(g)),
+    }
+}
+
+type STQ = sophia_api::quad::Spog<crate::stores::ST>;
+fn quad_source(qs: &[MQ]) -> impl QuadSource + '_ {
+    qs.iter().map(|q| Ok::<STQ, std::convert::Infallible>(q.to_spog()))
+}
+fn triple_source(qs: &[MQ]) -> impl TripleSource + '_ {
+    qs.iter().map(|q| Ok::<[crate::stores::ST; 3], std::convert::Infallible>(q.to_triple()))
+}
+
+fn pretty_turtle() -> sophia_turtle::serializer::turtle::TurtleConfig {
+    sophia_turtle::serializer::turtle::TurtleConfig::new().with_pretty(true)
+}
+
+fn serialize(syntax: &str, qs: &[MQ]) -> Result<String, String> {
+    use sophia_turtle::serializer::{nq::NqSerializer, nt::NtSerializer, trig::TrigSerializer, turtle::TurtleSerializer};
+    let len = match syntax {
+        "nt" => NtSerializer::new_stringifier().serialize_triples(triple_source(qs)).map_err(|e| e.to_string())?.as_utf8().len(),
+        "nq" => NqSerializer::new_stringifier().serialize_quads(quad_source(qs)).map_err(|e| e.to_string())?.as_utf8().len(),
+        "turtle" => TurtleSerializer::new_stringifier().serialize_triples(triple_source(qs)).map_err(|e| e.to_string())?.as_utf8().len(),
+        "trig" => TrigSerializer::new_stringifier().serialize_quads(quad_source(qs)).map_err(|e| e.to_string())?.as_utf8().len(),
+        "turtle-pretty" => TurtleSerializer::new_stringifier_with_config(pretty_turtle())
+            .serialize_triples(triple_source(qs))
+            .map_err(|e| e.to_string())?
+            .as_utf8()
+            .len(),
+        "trig-pretty" => TrigSerializer::new_stringifier_with_config(pretty_turtle())
+            .serialize_quads(quad_source(qs))
+            .map_err(|e| e.to_string())?
+            .as_utf8()
+            .len(),
+        "rdfxml" => sophia_xml::serializer::RdfXmlSerializer::new_stringifier()
+            .serialize_triples(triple_source(qs))
+            .map_err(|e| e.to_string())?
+            .as_utf8()
+            .len(),
+        "jsonld" => sophia_jsonld::JsonLdSerializer::new_stringifier()
+            .serialize_quads(quad_source(qs))
+            .map_err(|e| e.to_string())?
+            .as_utf8()
+            .len(),
+        other => return Err(format!("unknown syntax {other}")),
+    };
+    Ok(format!("bytes={len}"))
+}
+
+fn parse(syntax: &str, text: &str) -> Result<String, String> {
+    use sophia_turtle::parser::{nq::NQuadsParser, nt::NTriplesParser, trig::TriGParser, turtle::TurtleParser};
+    let mut c = 0u64;
+    match syntax {
+        "nt" => NTriplesParser {}.parse_str(text).for_each_triple(|_| c += 1).map_err(|e| e.to_string())?,
+        "nq" => NQuadsParser {}.parse_str(text).for_each_quad(|_| c += 1).map_err(|e| e.to_string())?,
+        "turtle" => TurtleParser { base: None }.parse_str(text).for_each_triple(|_| c += 1).map_err(|e| e.to_string())?,
+        "trig" => TriGParser { base: None }.parse_str(text).for_each_quad(|_| c += 1).map_err(|e| e.to_string())?,
+        "rdfxml" => sophia_xml::parser::RdfXmlParser { base: None }.parse_str(text).for_each_triple(|_| c += 1).map_err(|e| e.to_string())?,
+        "jsonld" => sophia_jsonld::JsonLdParser::new().parse_str(text).for_each_quad(|_| c += 1).map_err(|e| e.to_string())?,
+        other => return Err(format!("unknown syntax {other}")),
+    }
+    Ok(format!("statements={c}"))
+}
+
+fn document(syntax: &str, n: u64) -> String {
+    let quads = matches!(syntax, "nq" | "trig" | "jsonld");
+    let qs = statements(n, quads);
+    match syntax {
+        "nt" | "nq" | "turtle" => qs.iter().map(nt_line).collect(),
+        "trig" => qs
+            .iter()
+            .map(|q| match &q.g {
+                None => nt_line(q),
+                Some(g) => {
+                    let mut q2 = q.clone();
+                    q2.g = None;
+                    format!("<{}> {{ {} }}\n", if let MT::Iri(i) = g { i.as_str() } else { "" }, nt_line(&q2).trim_end())
+                }
+            })
+            .collect(),
+        "rdfxml" => {
+            let mut s = String::from("<?xml version=\"1.0\"?>\n<rdf:RDF xmlns:rdf=\"http://www.w3.org/1999/02/22-rdf-syntax-ns#\" xmlns:e=\"http://x/\">\n");
+            for i in 0..n {
+                s.push_str(&format!("<rdf:Description rdf:about=\"http://x/s{}\"><e:p{}>value {i}</e:p{}></rdf:Description>\n", i / 3, i % 7, i % 7));
+            }
+            s.push_str("</rdf:RDF>\n");
+            s
+        }
+        _ => {
+            // JSON-LD: a flat array of node objects
+            let mut s = String::from("[");
+            for i in 0..n {
+                if i > 0 {
+                    s.push(',');
+                }
+                s.push_str(&format!("{{\"@id\":\"http://x/s{i}\",\"http://x/p{}\":[{{\"@value\":\"value {i}\"}}]}}\n", i % 7));
+            }
+            s.push(']');
+            s
+        }
+    }
+}
+
+fn sparql_count<D: Dataset>(d: &D, q: &str) -> Result<String, String> {
+    let w = sophia_sparql::SparqlWrapper(d);
+    let res = w.query(q).map_err(|e| e.to_string())?;
+    let mut c = 0u64;
+    for b in res.into_bindings() {
+        b.map_err(|e| e.to_string())?;
+        c += 1;
+    }
+    Ok(format!("solutions={c}"))
+}
+
+/// Run one scenario to completion (build the data, run the operation). `Err` = the
+/// operation returned an error value (which the property allows).
+fn scenario(name: &str, n: u64) -> Result<String, String> {
+    if name.starts_with("ld:") || name.starts_with("fd:") || name.starts_with("lg:") || name.starts_with("fg:") {
+        return run_iterator_scenario(name, n);
+    }
+    let (group, what) = name.split_once(':').ok_or_else(|| format!("bad scenario {name}"))?;
+    match group {
+        "escape" => {
+            let q = MQ::new(iri("http://x/s".into()), iri("http://x/p".into()), MT::string(nasty_literal(n)), if what == "nq" || what == "trig-pretty" { Some(iri("http://x/g".into())) } else { None });
+            serialize(what, &[q])
+        }
+        "sparql" => match what {
+            "graph-var" | "graph-var-light" => {
+                let qs: Vec<MQ> = (0..n)
+                    .map(|i| MQ::new(iri("http://x/s".into()), iri("http://x/p".into()), MT::string("v"), Some(iri(format!("http://x/g{i}")))))
+                    .collect();
+                let query = "SELECT ?g ?s { GRAPH ?g { ?s ?p ?o } }";
+                if what == "graph-var" {
+                    let d: FastDataset = quad_source(&qs).collect_quads().map_err(|e| e.to_string())?;
+                    sparql_count(&d, query)
+                } else {
+                    let d: LightDataset = quad_source(&qs).collect_quads().map_err(|e| e.to_string())?;
+                    sparql_count(&d, query)
+                }
+            }
+            "bgp-solutions" => {
+                let d: FastDataset = quad_source(&statements(n, false)).collect_quads().map_err(|e| e.to_string())?;
+                sparql_count(&d, "SELECT * { ?s ?p ?o }")
+            }
+            "bgp-join" => {
+                let mut qs = vec![];
+                for i in 0..n {
+                    qs.push(MQ::new(iri(format!("http://x/s{i}")), iri("http://x/p".into()), MT::string(format!("{i}")), None));
+                    qs.push(MQ::new(iri(format!("http://x/s{i}")), iri("http://x/q".into()), iri(format!("http://x/o{i}")), None));
+                }
+                let d: FastDataset = quad_source(&qs).collect_quads().map_err(|e| e.to_string())?;
+                sparql_count(&d, "SELECT * { ?s <http://x/p> ?v . ?s <http://x/q> ?o }")
+            }
+            "bgp-rejected-rows" => {
+                // a triple pattern with a repeated variable: N rows fetched, all rejected
+                let qs: Vec<MQ> = (0..n)
+                    .map(|i| MQ::new(iri(format!("http://x/s{i}")), iri("http://x/p".into()), iri(format!("http://x/o{i}")), None))
+                    .collect();
+                let d: LightDataset = quad_source(&qs).collect_quads().map_err(|e| e.to_string())?;
+                sparql_count(&d, "SELECT * { ?x <http://x/p> ?x }")
+            }
+            _ => Err(format!("unknown scenario {name}")),
+        },
+        "list" => match what {
+            "jsonld-serialize" => serialize("jsonld", &list_quads(n)),
+            "turtle-pretty" => serialize("turtle-pretty", &list_quads(n)),
+            "jsonld-parse" => {
+                let items: Vec<String> = (0..n).map(|i| i.to_string()).collect();
+                let doc = format!("{{\"@id\":\"http://x/s\",\"http://x/p\":{{\"@list\":[{}]}}}}", items.join(","));
+                parse("jsonld", &doc)
+            }
+            "turtle-parse" => {
+                let items: Vec<String> = (0..n).map(|i| i.to_string()).collect();
+                let doc = format!("<http://x/s> <http://x/p> ( {} ) .\n", items.join(" "));
+                parse("turtle", &doc)
+            }
+            "resource-items" => {
+                use sophia_resource::{NoLoader, Resource};
+                use std::sync::Arc;
+                let g: LightGraph = triple_source(&list_quads(n)).collect_triples().map_err(|e| e.to_string())?;
+                let r: Resource<LightGraph, NoLoader> = Resource::new(MT::iri("http://x/s").to_simple(), None, Arc::new(g), Arc::new(NoLoader()));
+                let c = r.get_term_items(MT::iri("http://x/p").to_simple()).count();
+                Ok(format!("items={c}"))
+            }
+            _ => Err(format!("unknown scenario {name}")),
+        },
+        "parse" => parse(what, &document(what, n)),
+        "serialize" => {
+            let quads = matches!(what, "nq" | "trig" | "trig-pretty" | "jsonld");
+            serialize(what, &statements(n, quads))
+        }
+        "mutate" => match what {
+            "fd-remove-matching" => {
+                let mut d: FastDataset = quad_source(&statements(n, true)).collect_quads().map_err(|e| e.to_string())?;
+                let c = d.remove_matching(Any, Any, sophia_api::term::TermKind::Literal, Any).map_err(|e| e.to_string())?;
+                Ok(format!("removed={c} left={}", d.quads().count()))
+            }
+            "ld-retain-matching" => {
+                let mut d: LightDataset = quad_source(&statements(n, true)).collect_quads().map_err(|e| e.to_string())?;
+                d.retain_matching(Any, Any, sophia_api::term::TermKind::Literal, Any).map_err(|e| e.to_string())?;
+                Ok(format!("left={}", d.quads().count()))
+            }
+            "fg-remove-matching" => {
+                let mut g: FastGraph = triple_source(&statements(n, false)).collect_triples().map_err(|e| e.to_string())?;
+                let c = g.remove_matching(Any, Any, sophia_api::term::TermKind::Iri).map_err(|e| e.to_string())?;
+                Ok(format!("removed={c} left={}", g.triples().count()))
+            }
+            _ => Err(format!("unknown scenario {name}")),
+        },
+        _ => Err(format!("unknown scenario {name}")),
+    }
+}
+
+/// `vcheck --worker C16 <scenario> <N>`
+pub fn worker(args: &[String]) -> i32 {
+    let Some(name) = args.first().cloned() else { return 2 };
+    let n: u64 = args.get(1).and_then(|s| s.parse().ok()).unwrap_or(1000);
+    if name == "--list" {
+        for s in scenarios() {
+            println!("{} quick={} cap={}", s.name, s.quick, s.cap);
+        }
+        return 0;
+    }
+    if !scenarios().iter().any(|s| s.name == name) {
+        eprintln!("unknown scenario {name}");
+        return 2;
+    }
+    let h = std::thread::Builder::new().stack_size(STACK).spawn(move || scenario(&name, n));
+    let h = match h {
+        Ok(h) => h,
+        Err(e) => {
+            eprintln!("cannot spawn the 2 MiB thread: {e}");
+            return 2;
+        }
+    };
+    match h.join() {
+        Ok(Ok(info)) => {
+            println!("OK {info}");
+            0
+        }
+        Ok(Err(e)) => {
+            // an error *value* is an acceptable outcome
+            println!("ERRVALUE {}", e.chars().take(300).collect::<String>());
+            0
+        }
+        Err(_) => {
+            println!("PANIC");
+            3
+        }
+    }
+}
+
+// ------------------------------------------------------------------ parent side
+
+#[derive(Debug, Clone, PartialEq)]
+enum Verdict {
+    Pass(String),
+    /// killed by a signal (stack overflow = SIGSEGV or SIGABRT)
+    Overflow(String),
+    Panic(String),
+    Timeout,
+    Infra(String),
+}
+
+fn binary_for(profile: &str) -> Result<String, String> {
+    let var = if profile == "dev" { "VCHECK_DEV" } else { "VCHECK_RELEASE" };
+    let p = std::env::var(var).map_err(|_| format!("environment variable {var} is not set (run through ./check C16)"))?;
+    if !std::path::Path::new(&p).is_file() {
+        return Err(format!("{var}={p} does not exist (build failed?)"));
+    }
+    Ok(p)
+}
+
+fn run_child(scenario: &str, n: u64, profile: &str, timeout: Duration) -> Verdict {
+    let bin = match binary_for(profile) {
+        Ok(b) => b,
+        Err(e) => return Verdict::Infra(e),
+    };
+    let mut child = match Command::new(&bin)
+        .args(["--worker", "C16", scenario, &n.to_string()])
+        .stdin(Stdio::null())
+        .stdout(Stdio::piped())
+        .stderr(Stdio::piped())
+        .spawn()
+    {
+        Ok(c) => c,
+        Err(e) => return Verdict::Infra(format!("cannot spawn {bin}: {e}")),
+    };
+    let t0 = Instant::now();
+    let status = loop {
+        match child.try_wait() {
+            Ok(Some(st)) => break st,
+            Ok(None) => {
+                if t0.elapsed() > timeout {
+                    let _ = child.kill();
+                    let _ = child.wait();
+                    return Verdict::Timeout;
+                }
+                std::thread::sleep(Duration::from_millis(20));
+            }
+            Err(e) => return Verdict::Infra(format!("wait failed: {e}")),
+        }
+    };
+    let mut out = String::new();
+    let mut err = String::new();
+    if let Some(mut o) = child.stdout.take() {
+        let _ = o.read_to_string(&mut out);
+    }
+    if let Some(mut e) = child.stderr.take() {
+        let _ = e.read_to_string(&mut err);
+    }
+    let tail = |s: &str| s.lines().rev().take(3).collect::<Vec<_>>().join(" / ");
+    match status.code() {
+        Some(0) => Verdict::Pass(out.trim().chars().take(200).collect()),
+        Some(3) => Verdict::Panic(tail(&err)),
+        Some(2) => Verdict::Infra(format!("worker refused: {}", tail(&err))),
+        Some(c) => Verdict::Overflow(format!("exit code {c}: {}", tail(&err))),
+        None => {
+            #[cfg(unix)]
+            {
+                use std::os::unix::process::ExitStatusExt;
+                Verdict::Overflow(format!("killed by signal {:?}: {}", status.signal(), tail(&err)))
+            }
+            #[cfg(not(unix))]
+            {
+                Verdict::Overflow(format!("abnormal termination: {}", tail(&err)))
+            }
+        }
+    }
+}
+
+fn signature(v: &Verdict, scenario: &str, profile: &str) -> String {
+    match v {
+        Verdict::Panic(_) => format!("panic/{scenario}/{profile}"),
+        _ => format!("stack/{scenario}/{profile}"),
+    }
+}
+
+/// smallest failing N by bisection (the verdict at `hi` is known to be a failure)
+fn bisect(scenario: &str, profile: &str, hi: u64, timeout: Duration) -> u64 {
+    let (mut lo, mut hi) = (0u64, hi);
+    let mut steps = 0;
+    while hi - lo > (hi / 20).max(1) && steps < 12 {
+        let mid = lo + (hi - lo) / 2;
+        match run_child(scenario, mid, profile, timeout) {
+            Verdict::Overflow(_) | Verdict::Panic(_) => hi = mid,
+            Verdict::Pass(_) => lo = mid,
+            _ => break,
+        }
+        steps += 1;
+    }
+    hi
+}
+
+pub struct C16;
+
+impl Check for C16 {
+    type Case = Case;
+    const ID: &'static str = "C16";
+    fn rule() -> String {
+        "one evaluation = one (scenario, N, profile) child process. Scenarios: every bound-position shape x rejecting position x varying position of quads_matching/triples_matching on Light/Fast Dataset/Graph (N rows skipped), N escaped characters in one literal (7 serializers), N named graphs under GRAPH ?g, N BGP solutions / joined / rejected rows, N-item RDF list (JSON-LD out/in, pretty Turtle out, Turtle in, Resource list walk), N statements parsed / serialized in each syntax, bulk removal. Non-trivial = N >= 100000 (the three pretty-printer scenarios, whose algorithm is quadratic, run at N <= 10000 and are therefore never counted as non-trivial). Quick tier: N = 200000 in the release build, N = 100000 in the dev build.".into()
+    }
+    fn assumptions() -> Vec<String> {
+        vec![
+            "the whole scenario, data construction included, runs on a std::thread with stack_size(2 MiB) inside the child".into(),
+            "exit status 0 (result or error value) = pass; death by signal or unexpected exit code = stack overflow; exit 3 = panic; watchdog timeout = inconclusive".into(),
+            "pretty Turtle/TriG scenarios (list of N items, N statements) are capped at N = 5000 / 10000: the pretty printer is quadratic (linear scans of a Vec-backed dataset), larger sizes only time out; the code is iterative (loops), checked by reading".into(),
+            "dev = cargo profile dev (opt-level 0) of the harness and all sophia crates, release = profile release".into(),
+        ]
+    }
+    fn cases(_tier: Tier) -> u32 {
+        0
+    }
+    fn strategy(_tier: Tier) -> BoxedStrategy<Case> {
+        Just(Case { scenario: "escape:nt".into(), n: 1000, profile: "release".into() }).boxed()
+    }
+    /// replay / corpus: run the child and judge
+    fn run(case: &Case, ctx: &mut Ctx) {
+        ctx.class(format!("profile:{}", case.profile));
+        let v = run_child(&case.scenario, case.n, &case.profile, Duration::from_secs(300));
+        if case.n >= 100_000 {
+            ctx.nontrivial();
+        }
+        match &v {
+            Verdict::Pass(_) => ctx.class("pass"),
+            Verdict::Timeout => ctx.class("timeout(inconclusive)"),
+            Verdict::Infra(e) => {
+                ctx.class("infrastructure(inconclusive)");
+                eprintln!("C16: {e}");
+            }
+            Verdict::Overflow(d) | Verdict::Panic(d) => ctx.fail(
+                signature(&v, &case.scenario, &case.profile),
+                format!("scenario {} with N={} in the {} build on a 2 MiB thread: {d}", case.scenario, case.n, case.profile),
+            ),
+        }
+    }
+    fn extra_stage(tier: Tier, seed: u64, _known: &Known) -> ExtraResult {
+        let mut ex = ExtraResult::default();
+        for p in ["dev", "release"] {
+            if let Err(e) = binary_for(p) {
+                ex.inconclusive.push(e);
+            }
+        }
+        if !ex.inconclusive.is_empty() {
+            return ex;
+        }
+        let timeout = Duration::from_secs(tier.pick(400, 3000));
+        // job list
+        let mut jobs: Vec<Case> = vec![];
+        let scns = scenarios();
+        match tier {
+            Tier::Quick => {
+                for s in scns.iter().filter(|s| s.quick) {
+                    for p in ["dev", "release"] {
+                        // the unoptimised build is 10-30x slower: half the size there
+                        let mut n = if p == "dev" { 100_000u64 } else { 200_000u64 };
+                        // quadratic pretty printer: a tenth of the cap (dev: a fifth of that)
+                        if s.cap != u64::MAX {
+                            n = if p == "dev" { s.cap / 10 } else { s.cap / 2 };
+                        }
+                        jobs.push(Case { scenario: s.name.clone(), n, profile: p.into() });
+                    }
+                }
+            }
+            Tier::Thorough => {
+                let mut x = seed.wrapping_mul(0x9E37_79B9_7F4A_7C15) | 1;
+                for s in &scns {
+                    for p in ["dev", "release"] {
+                        let cap = if p == "dev" && s.cap != u64::MAX { s.cap / 2 } else { s.cap };
+                        jobs.push(Case { scenario: s.name.clone(), n: 1_000_000u64.min(cap), profile: p.into() });
+                        // one more size, log-uniform in 10^3..10^6
+                        x ^= x << 13;
+                        x ^= x >> 7;
+                        x ^= x << 17;
+                        let e = 3.0 + (x % 3000) as f64 / 1000.0;
+                        jobs.push(Case { scenario: s.name.clone(), n: (10f64.powf(e) as u64).min(cap), profile: p.into() });
+                    }
+                }
+            }
+        }
+        // optional restriction to families of scenarios (comma-separated substrings of the
+        // scenario name), for partial thorough runs; recorded in the evidence
+        let filter = std::env::var("VERIF_C16_FILTER").ok().filter(|f| !f.is_empty());
+        if let Some(f) = &filter {
+            jobs.retain(|j| f.split(',').any(|part| j.scenario.contains(part)));
+        }
+        // longest first (heavy scenarios in the dev build), to keep the tail short
+        jobs.sort_by_key(|j| {
+            let heavy = scns.iter().any(|s| s.name == j.scenario && (s.heavy || s.cap != u64::MAX));
+            (!(heavy && j.profile == "dev"), !heavy, j.profile != "dev")
+        });
+        let workers = tier.pick(12usize, 6usize);
+        let next = AtomicUsize::new(0);
+        let results: Mutex<Vec<(usize, Verdict, f64)>> = Mutex::new(vec![]);
+        std::thread::scope(|sc| {
+            for _ in 0..workers {
+                sc.spawn(|| loop {
+                    let i = next.fetch_add(1, Ordering::SeqCst);
+                    if i >= jobs.len() {
+                        break;
+                    }
+                    let j = &jobs[i];
+                    let t0 = Instant::now();
+                    let v = run_child(&j.scenario, j.n, &j.profile, timeout);
+                    results.lock().unwrap().push((i, v, t0.elapsed().as_secs_f64()));
+                });
+            }
+        });
+        let mut results = results.into_inner().unwrap();
+        results.sort_by_key(|r| r.0);
+        let mut table = vec![];
+        let mut slowest: Vec<(f64, String)> = vec![];
+        for (i, v, secs) in results {
+            let j = &jobs[i];
+            ex.evaluations += 1;
+            if j.n >= 100_000 {
+                ex.nontrivial += 1;
+            }
+            slowest.push((secs, format!("{} N={} {}", j.scenario, j.n, j.profile)));
+            let label = match &v {
+                Verdict::Pass(_) => "pass",
+                Verdict::Overflow(_) => "STACK-OVERFLOW",
+                Verdict::Panic(_) => "PANIC",
+                Verdict::Timeout => "timeout",
+                Verdict::Infra(_) => "infrastructure",
+            };
+            table.push(json!({"scenario": j.scenario, "n": j.n, "profile": j.profile, "verdict": label, "seconds": (secs * 10.0).round() / 10.0,
+                "detail": match &v { Verdict::Pass(s) | Verdict::Overflow(s) | Verdict::Panic(s) | Verdict::Infra(s) => s.clone(), Verdict::Timeout => String::new() }}));
+            match &v {
+                Verdict::Pass(_) => {}
+                Verdict::Timeout => ex.inconclusive.push(format!("timeout after {}s: {} N={} ({})", timeout.as_secs(), j.scenario, j.n, j.profile)),
+                Verdict::Infra(e) => ex.inconclusive.push(format!("{} N={} ({}): {e}", j.scenario, j.n, j.profile)),
+                Verdict::Overflow(d) | Verdict::Panic(d) => {
+                    let min_n = bisect(&j.scenario, &j.profile, j.n, timeout);
+                    let case = Case { scenario: j.scenario.clone(), n: min_n, profile: j.profile.clone() };
+                    ex.failures.push((
+                        serde_json::to_value(&case).unwrap(),
+                        Failure {
+                            signature: signature(&v, &j.scenario, &j.profile),
+                            detail: format!(
+                                "scenario {} in the {} build on a 2 MiB thread dies at N={} (smallest failing size found by bisection: about {min_n}): {d}",
+                                j.scenario, j.profile, j.n
+                            ),
+                        },
+                    ));
+                }
+            }
+        }
+        slowest.sort_by(|a, b| b.0.partial_cmp(&a.0).unwrap());
+        ex.info = json!({
+            "jobs": table.len(),
+            "scenario_filter(VERIF_C16_FILTER)": filter,
+            "scenarios_total": scns.len(),
+            "scenarios_in_this_tier": jobs.iter().map(|j| j.scenario.clone()).collect::<std::collections::BTreeSet<_>>().len(),
+            "slowest": slowest.iter().take(8).map(|(s, n)| format!("{s:.1}s {n}")).collect::<Vec<_>>(),
+            "results": table,
+        });
+        ex
+    }
+    fn show(case: &Case) -> Value {
+        serde_json::to_value(case).unwrap_or(Value::Null)
+    }
+}
+
+pub fn main(opts: &Opts) -> i32 {
+    drive::<C16>(opts)
 }
